@@ -1,7 +1,7 @@
 (* C15 — the VALUE a lookup returns: node identity is the repr, the value stored is the one handed to the
    latest add-type call of that repr ("last added value wins").  Round 4 (seeded C15-10). *)
 From Coq Require Import List ZArith Bool Lia.
-From GZ Require Import C15.Model C15.Cluster C15.Check C15.Proofs C15.ProofsB C15.ProofsC C15.ProofsD.
+From GZ Require Import C15.Model C15.Cluster C15.Conc C15.Check C15.Proofs C15.ProofsB C15.ProofsC C15.ProofsD.
 From GZgen Require Import C15Consts.
 Import ListNotations.
 Open Scope Z_scope.
@@ -189,3 +189,62 @@ Proof.
     rewrite Hm in Hin. exact Hin.
 Qed.
 
+(* ======== lookups among lookups (seeded C15-11) ====================================================
+   (1) at the granularity of Conc.v (a lookup = one atomic read): lookups do not change the state, so a
+   block of lookups — any number, any order — answers key by key what the quiescent ring answers. *)
+Section GetsCommute.
+Variable vh : Z -> Z -> Z.
+Variable R : Z.
+
+Lemma grun_app : forall l1 l2 s,
+  grun vh R s (l1 ++ l2) =
+  (fst (grun vh R (fst (grun vh R s l1)) l2), snd (grun vh R s l1) ++ snd (grun vh R (fst (grun vh R s l1)) l2)).
+Proof.
+  induction l1 as [|c l1 IH]; intros l2 s; cbn [app grun fst snd].
+  - destruct (grun vh R s l2); reflexivity.
+  - destruct c as [a|hp ihp]; [apply IH|]. cbn [fst snd]. rewrite IH. reflexivity.
+Qed.
+
+Definition lookups (ks : list (Z * Z)) : list cact := map (fun k => CGet (fst k) (snd k)) ks.
+
+Lemma grun_lookups : forall ks s, grun vh R s (lookups ks) = (s, map (fun k => get s (fst k) (snd k)) ks).
+Proof.
+  induction ks as [|k ks IH]; intros s; cbn [lookups map grun]; [reflexivity|].
+  fold (lookups ks). rewrite IH. reflexivity.
+Qed.
+
+(* whatever ran before (membership actions and lookups) and whatever runs afterwards: a block of lookups
+   leaves the state as it is and each of them answers [get] of that state for its own key — independently of
+   the other lookups of the block, of their number and of their order *)
+Lemma gets_answer_as_alone_l : forall pre ks post,
+  let s := fst (grun vh R init pre) in
+  grun vh R init (pre ++ lookups ks ++ post) =
+  (fst (grun vh R s post),
+   snd (grun vh R init pre) ++ map (fun k => get s (fst k) (snd k)) ks ++ snd (grun vh R s post)).
+Proof.
+  intros pre ks post s. rewrite grun_app. fold s. rewrite grun_app, grun_lookups. reflexivity.
+Qed.
+End GetsCommute.
+
+
+(* (2) below that granularity (Conc.v [lrun]) *)
+(* private bytes: for EVERY interleaving of the copy / hash steps of any number of lookups, a lookup that
+   answers answers what the quiescent ring answers for ITS key *)
+Lemma private_bytes_answer_as_alone_l : forall s keys steps t g,
+  In (t, g) (lrun false s keys (fun _ => None) steps) ->
+  g = get s (fst (key_of keys t)) (snd (key_of keys t)).
+Proof.
+  intros s keys steps t g.
+  assert (H : forall bufs, (forall u v, bufs (S u) = Some v -> v = u) ->
+              In (t, g) (lrun false s keys bufs steps) ->
+              g = get s (fst (key_of keys t)) (snd (key_of keys t))).
+  { induction steps as [|st steps IH]; intros bufs Hb Hin; cbn [lrun] in Hin; [contradiction|].
+    destruct st as [u|u].
+    - apply (IH _ ) in Hin; [exact Hin|]. intros a v. unfold buf_of. cbn [Nat.eqb].
+      destruct (Nat.eqb a u) eqn:E; [apply Nat.eqb_eq in E; congruence | apply Hb].
+    - unfold buf_of in Hin. destruct (bufs (S u)) as [v|] eqn:E.
+      + destruct Hin as [Hin|Hin]; [|exact (IH _ Hb Hin)].
+        apply Hb in E. inversion Hin; subst. reflexivity.
+      + exact (IH _ Hb Hin). }
+  apply H. intros u v Hn. discriminate.
+Qed.
